@@ -41,6 +41,9 @@ func runC18(c *core.Ctx) {
 	c18R4(c)
 	jsonTargetRule(c, "C18.R5", "service/presence")
 	nilGossiperRule(c, "C18.R6")
+	// the unsubscribe notification of a closing connection exists only for the filters its
+	// counters still know: integrity of the counter chains (shared with C02.R1)
+	foldKeyRule(c, "C18.R7", 5)
 }
 
 func c18R1(c *core.Ctx) { c18R1as(c, "C18.R1") }
